@@ -148,9 +148,9 @@ int translate_absolute_line (int abs_line, unsigned short *file_info, size_t blo
   unsigned short *p1, *p2, *end = file_info + (block_size / sizeof(unsigned short));
   int file;
   int line_tmp = abs_line;
-  /* files that are open at the chunk being looked at, innermost last, with the lines
-   * each of them has had so far */
-  struct { int file; int lines; } open_files[64];
+  /* files that are open at the chunk being looked at, innermost last, with the lines each
+   * of them has had so far; ended: its last chunk has been seen */
+  struct { int file; int lines; int ended; } open_files[64];
   int depth = 0, i;
 
   /* two passes: first, find out what file we're interested in */
@@ -164,32 +164,50 @@ int translate_absolute_line (int abs_line, unsigned short *file_info, size_t blo
     }
   file = p1[1];
 
-  /* Now correct the line number for that file. The chunks before this one are the
-   * including files interrupted by their includes: a chunk of a file that is still
-   * open continues its count (and closes the includes opened since), any other chunk
-   * opens a new include that starts at line 1 - also when the same header was included
-   * before. */
-  for (p2 = file_info; p2 < p1; p2 += 2)
+  /* Now correct the line number for that file.  The table is written by the lexer: when an
+   * #include is met, a chunk with the lines the including file has had since its last chunk
+   * (left out when there are none) and a chunk of no lines that names the included file;
+   * at the end of a file, a chunk with its remaining lines.  So a chunk of no lines opens a
+   * file, a chunk with lines belongs to the innermost open file, and that file goes on if
+   * the next chunk opens an include and is finished otherwise.  File names alone cannot
+   * tell this: headers with include guards include each other, or themselves. */
+  for (p2 = file_info; p2 <= p1; p2 += 2)
     {
-      for (i = depth - 1; i >= 0 && open_files[i].file != p2[1]; i--)
-        ;
-      if (i >= 0)
+      if (depth > 0 && open_files[depth - 1].ended)
         {
-          depth = i + 1;
-          open_files[i].lines += *p2;
+          /* (a chunk may also be written in the middle of a file, for the message about
+           * overlapping cases: it continues the file unless that is the including file too) */
+          if (*p2 != 0 && open_files[depth - 1].file == p2[1]
+              && !(depth > 1 && open_files[depth - 2].file == p2[1]))
+            open_files[depth - 1].ended = 0;
+          else
+            depth--;
         }
-      else if (depth < (int) (sizeof (open_files) / sizeof (open_files[0])))
+      if (*p2 == 0 || depth == 0 || open_files[depth - 1].file != p2[1])
         {
-          open_files[depth].file = p2[1];
-          open_files[depth].lines = *p2;
-          depth++;
+          /* for a chunk with lines this is a table that does not follow the rules above:
+           * go by the names */
+          for (i = (*p2 == 0) ? -1 : depth - 1; i >= 0 && open_files[i].file != p2[1]; i--)
+            ;
+          if (i >= 0)
+            depth = i + 1;
+          else
+            {
+              if (depth == (int) (sizeof (open_files) / sizeof (open_files[0])))
+                depth--;		/* deeper than includes can be nested */
+              open_files[depth].file = p2[1];
+              open_files[depth].lines = 0;
+              open_files[depth].ended = 0;
+              depth++;
+            }
         }
+      if (p2 == p1)
+        break;
+      open_files[depth - 1].lines += *p2;
+      if (*p2 != 0 && !(p2 + 2 < end && p2[2] == 0))
+        open_files[depth - 1].ended = 1;
     }
-  for (i = depth - 1; i >= 0 && open_files[i].file != file; i--)
-    ;
-  if (i >= 0)
-    line_tmp += open_files[i].lines;
-  *ret_line = line_tmp;
+  *ret_line = line_tmp + open_files[depth - 1].lines;
   *ret_file = file;
   return 0;
 }
